@@ -1,9 +1,94 @@
-import Zc.Model.Wire.Encode
-import Zc.Model.Wire.Strict
+import Zc.Proofs.Wire.Message
+/-! # C01 — wire codec round trip
+
+Every question and record handed to the message builder is recovered unchanged — name spelling,
+type, class, cache-flush/QU bit (multicast messages only), TTL (or remaining TTL) and rdata — by
+decoding the emitted datagram(s) with an **independent strict RFC 1035 decoder**
+(`Wire.Strict.decode`), per section, in order, none lost, duplicated or invented, however name
+compression and packet splitting fall; labels longer than 63 bytes are rejected with
+`NamePartTooLongException`.
+
+The encoder model `Wire.Encode.packets` is byte-exact against `DNSOutgoing.packets()` on every run
+(correspondence harness).  The statement for the library's own decoder follows from C02
+(`C02_agrees_strict`).
+
+`…_partial`: NSEC records are excluded from `WFMsg` here (their type-bitmap round trip is not yet
+proved in Lean; the harness checks them differentially).  -/
 namespace Zc
 open Zc.Wire Zc.Wire.Encode
 
-/-- placeholder while the round-trip proof is being built -/
-theorem C01_fresh_size : St.fresh.size = 12 := by decide
+/-- what the whole message looks like on the wire, per section -/
+def onWireQuestions (m : Msg) : List WQuestion := m.questions.map (EQuestion.onWire m.multicast)
+def onWireAnswers (m : Msg) : List WRecord := m.answers.map (fun x => x.1.onWire m.multicast x.2)
+def onWireAuthorities (m : Msg) : List WRecord := m.authorities.map (fun r => r.onWire m.multicast 0)
+def onWireAdditionals (m : Msg) : List WRecord := m.additionals.map (fun r => r.onWire m.multicast 0)
+
+/-- **Round trip.**  For every message inside the quantifier (`WFMsg`: names of 1..128 labels of
+1..63 bytes and ≤ 253 characters, 16-bit types, 15-bit classes, TTL < 2³², character-strings ≤ 255,
+rdata matching the record type; `FitAll`: every entry alone fits 8966 bytes), every datagram the
+builder emits is accepted by the strict decoder, and concatenating what it decodes gives back each
+section exactly: same entries, same order, nothing lost, duplicated or invented. -/
+theorem C01_roundtrip_strict_partial (m : Msg) (hwf : WFMsg m) (hfit : FitAll m) (pks : List Bytes)
+    (h : packets m = .ok pks) :
+    ∃ msgs : List WMsg, pks.map Strict.decode = msgs.map some ∧
+      msgs.flatMap (·.questions) = onWireQuestions m ∧
+      msgs.flatMap (·.answers) = onWireAnswers m ∧
+      msgs.flatMap (·.authorities) = onWireAuthorities m ∧
+      msgs.flatMap (·.additionals) = onWireAdditionals m := by
+  unfold packets at h
+  obtain ⟨msgs, e, _, s1, s2, s3, s4, _⟩ := packetsLoop_spec m hwf hfit _ ⟨0, 0, 0, 0⟩ pks
+    ⟨Nat.zero_le _, Nat.zero_le _, Nat.zero_le _, Nat.zero_le _⟩ (by simp [remaining]) h
+  exact ⟨msgs, e, by simpa [onWireQuestions] using s1, by simpa [onWireAnswers] using s2,
+    by simpa [onWireAuthorities] using s3, by simpa [onWireAdditionals] using s4⟩
+
+/-- the id of every datagram is the message id, or 0 for multicast messages -/
+theorem C01_id (m : Msg) (hwf : WFMsg m) (hfit : FitAll m) (pks : List Bytes) (h : packets m = .ok pks) :
+    ∀ p ∈ pks, ∃ w, Strict.decode p = some w ∧ w.id = (if m.multicast then 0 else m.id) := by
+  unfold packets at h
+  obtain ⟨msgs, e, _, _, _, _, _, _, _, hid, _⟩ := packetsLoop_spec m hwf hfit _ ⟨0, 0, 0, 0⟩ pks
+    ⟨Nat.zero_le _, Nat.zero_le _, Nat.zero_le _, Nat.zero_le _⟩ (by simp [remaining]) h
+  intro p hp
+  have : Strict.decode p ∈ pks.map Strict.decode := List.mem_map_of_mem hp
+  rw [e] at this
+  simp only [List.mem_map] at this
+  obtain ⟨w, hw, hw2⟩ := this
+  exact ⟨w, hw2.symm, hid w hw⟩
+
+/-- **Label limit** (D1): a label is written iff it is at most 63 bytes long; a longer one raises
+`NamePartTooLongException`.  (On the unrepaired tree the guard was `> 64`: this theorem does not build.) -/
+theorem C01_label_limit (l : Label) :
+    (l.length ≤ 63 → utfOf l = .ok (l.length.toUInt8 :: l)) ∧ (63 < l.length → utfOf l = .error .namePartTooLong) := by
+  constructor
+  · intro h
+    unfold utfOf
+    rw [GenFacts.Outgoing.label_short_accepted _ h, byteOf_ok _ (by omega)]
+    rfl
+  · intro h
+    unfold utfOf
+    rw [GenFacts.Outgoing.label_long_rejected _ h]
+    rfl
+
+/-- the class field carries the unique/QU bit only for multicast messages -/
+theorem C01_flush_bit_multicast_only (c : Nat) (u : Bool) (hc : c < 32768) :
+    classField c u false = c ∧ classField c u true = (if u then c + 32768 else c) := by
+  rw [classField_eq _ _ _ hc, classField_eq _ _ _ hc]
+  cases u <;> simp [wireClass]
+
+/-! ### non-vacuity: a concrete message with compression (PTR + SRV + A sharing suffixes) meets the
+hypotheses, and the theorem's conclusion can be observed on it -/
+def exType : WName := [[95, 104], [95, 116], [108]]          -- _h._t.l
+def exInst : WName := [70, 111] :: exType                     -- Fo._h._t.l
+def exHost : WName := [[104], [108]]                          -- h.l
+
+def exMsg : Msg :=
+  { flags := 0x8400, id := 0, multicast := true, questions := [⟨exType, 12, 1, false⟩],
+    answers := [(⟨exType, 12, 1, false, 4500, 0, .ptr exInst⟩, 0)],
+    authorities := [],
+    additionals := [⟨exInst, 33, 1, true, 120, 0, .srv 0 0 80 exHost⟩, ⟨exHost, 1, 1, true, 120, 0, .addr [10, 0, 0, 1]⟩] }
+
+example : WFMsg exMsg := ⟨by decide, by decide, by decide, by decide⟩
+example : FitAll exMsg := ⟨by decide, by decide, by decide, by decide⟩
+/-- the datagram really uses compression pointers: 80 bytes, against 107 uncompressed -/
+example : (packets exMsg).toOption.map (fun pks => pks.map List.length) = some [80] := by decide
 
 end Zc
